@@ -14,7 +14,7 @@ RES = ('a', 'b', 'c', 'zzz')
 SPEC = {
     'level': 'exploration',
     'rule': ('operation sequences over add/reserve/release/merge on 3 resources and up to 4 live '
-             'reservations: every sequence of length <= L over a 51-operation alphabet (incl. reservations that re-use one request dictionary object) from 3 base '
+             'reservations: every sequence of length <= L over a 53-operation alphabet (incl. reservations that re-use one request dictionary object) from 3 base '
              'states (enumerated completely; L=3 quick, 4 thorough), then random sequences of length '
              '6-40 with integer and dyadic amounts; plus scripts on the real event queue in which reservations are made '
              'from inside availability callbacks (also with the dictionary object the manager offers, after another '
@@ -41,7 +41,7 @@ RESERVE_REQS = [
 RELEASE_ARGS = [
     None, [('a', 1)], [('a', 2)], [('b', 1)], [('a', 1), ('b', 1)], [('a', 1), ('zzz', 0)],
     [('zzz', 0), ('a', 1)], [('a', 1), ('zzz', 1)], [('a', -1)], [('a', 1), ('b', -1)],
-    [('a', 0)], [('a', 1), ('b', 5)]]
+    [('a', 0)], [('a', 1), ('b', 5)], []]
 ALPHABET = ([op for op in ADD_OPS]
             + [('reserve', r) for r in RESERVE_REQS]
             + [('reserve_shared', [('a', 1)]), ('reserve_shared', [('a', 1), ('b', 1)])]
@@ -358,7 +358,7 @@ def random_sequence(rng):
             if rng.random() < 0.4:
                 seq.append(('release', i, None))
             else:
-                k = rng.choice([1, 1, 2])
+                k = rng.choice([1, 1, 1, 2, 2, 0])
                 arg = []
                 for r in rng.sample(names + ['zzz'], k):
                     a = rng.choice(grid)
